@@ -14,7 +14,9 @@ ID = "C20"
 BUDGET = {"quick": 320, "thorough": 3200}
 CASE_TIMEOUT = {"quick": 300, "thorough": 600}
 RULE = (
-    "models with dependency chains of drawn depth 1-40 (thorough: 1-60), side branches and diamonds, each link "
+    "models with dependency chains of drawn depth 1-40 (thorough: 1-60), side branches and diamonds (and, one case "
+    "in three, 'cross' models where each derivative depends on an intermediate of another state plus monitor-only "
+    "intermediates, so the state order hangs on tie-breaks), each link "
     "a small expression (+ - * /, exp, sin, abs, Conditional, integer powers) of the previous link and base "
     "variables; floor / Mod only on state-independent arguments x resampled reference-defined points. Oracle: "
     "states_matrix order == sorted_states() == generated state_index; rhs_matrix contains no intermediate "
@@ -78,6 +80,9 @@ def chain_model(draw, max_depth):
         e = ["bin", "-", ["var", t], ["bin", "*", ["var", draw(st.sampled_from(pn))], ["var", s]]]
         if len(tops) > 1 and draw(st.booleans()):
             e = ["bin", "+", e, ["var", draw(st.sampled_from(tops))]]
+        if s != sn[0] and draw(st.integers(0, 2)) == 0:
+            # a state derivative referenced by name from a later derivative
+            e = ["bin", "+", e, ["bin", "*", ["num", "0.5"], ["var", X.deriv_name(sn[sn.index(s) - 1])]]]
         assigns.append({"name": X.deriv_name(s), "expr": e, "comps": [""]})
     # monitor-only intermediates (used by nothing): they change the tie-breaks of the topological sort
     pool = [n for n in G.SAFE_POOL if n not in names]
@@ -88,10 +93,36 @@ def chain_model(draw, max_depth):
     return {"states": states, "params": params, "assigns": list(draw(st.permutations(assigns)))}, depth, diamond
 
 
+def cross_model(draw):
+    """each state's derivative depends on an intermediate of ANOTHER state, plus monitor-only
+    intermediates: the order of the derivatives is decided by tie-breaks of the topological sort"""
+    ns = draw(st.integers(2, 4))
+    names = draw(st.lists(st.sampled_from(G.SAFE_POOL), min_size=2 * ns + 2 + 3, max_size=2 * ns + 2 + 3, unique=True))
+    sn, kn, pn, un = names[:ns], names[ns : 2 * ns], names[2 * ns : 2 * ns + 2], names[2 * ns + 2 :]
+    perm = draw(st.permutations(list(range(ns))))
+    assigns = []
+    for s, k in zip(sn, kn):
+        assigns.append({"name": k, "expr": ["bin", "*", ["var", draw(st.sampled_from(pn))], ["var", s]], "comps": [""]})
+    for i, s in enumerate(sn):
+        other = kn[perm[i]]
+        e = ["bin", "-", ["var", other], ["bin", "*", ["var", draw(st.sampled_from(pn))], ["var", s]]]
+        if draw(st.booleans()):
+            e = ["bin", "+", e, ["cond", ["rel", "Gt", ["var", s], ["num", "1"]], ["bin", "*", ["var", kn[i]], ["var", s]], ["var", kn[i]]]]
+        assigns.append({"name": X.deriv_name(s), "expr": e, "comps": [""]})
+    for u in un[: draw(st.integers(1, 3))]:
+        assigns.append({"name": u, "expr": ["bin", "*", ["var", draw(st.sampled_from(pn))], ["var", draw(st.sampled_from(sn))]], "comps": [""]})
+    states = [{"name": n, "value": ["num", str(i + 1) + ".5"], "comps": [""]} for i, n in enumerate(sn)]
+    params = [{"name": n, "value": ["num", "0." + str(i + 3)], "comps": [""]} for i, n in enumerate(pn)]
+    return {"states": states, "params": params, "assigns": list(draw(st.permutations(assigns)))}, 1, True
+
+
 def strategy(tier):
     @st.composite
     def _s(draw):
-        model, depth, diamond = chain_model(draw, 40 if tier == "quick" else 60)
+        if draw(st.integers(0, 2)) == 0:
+            model, depth, diamond = cross_model(draw)
+        else:
+            model, depth, diamond = chain_model(draw, 40 if tier == "quick" else 60)
         need = [X.deriv_name(s["name"]) for s in model["states"]]
         pts = G.draw_points(draw, model, 2, need)
         return {"model": model, "points": pts, "depth": depth, "diamond": diamond}
@@ -123,9 +154,11 @@ def check_case(case):
     ns = B.exec_py(B.py_code(ode))
     if order != sorted(ns["state"], key=lambda n: ns["state"][n]):
         raise Violation("C20:states-matrix-order-vs-generated-code", dict(ctx, matrix=order, state_index=ns["state"]))
-    inter_syms = {a.symbol for a in ode.intermediates}
-    if rm.free_symbols & inter_syms:
-        raise Violation("C20:rhs-matrix-contains-intermediates", dict(ctx, left=[str(s) for s in rm.free_symbols & inter_syms]))
+    allowed = set(X.state_names(model)) | set(X.param_names(model)) | {"t", "time"}
+    for what, mat in (("rhs-matrix", rm), ("jacobian", jm)):
+        left = sorted(str(s) for s in mat.free_symbols if str(s) not in allowed)
+        if left:
+            raise Violation(f"C20:{what}-contains-unexpanded-names", dict(ctx, left=left))
     n_ok = 0
     for pt in case["points"]:
         ev = refsem.Evaluator(model, pt)
